@@ -3,7 +3,8 @@
 Histories of writes and reads over sized (file-backed) values with a size limit
 just above the empty database, per policy x cull_limit, expired items mixed in,
 compared with DC.Model.Cache (`cullW`, `cull`); the acceptor re-derives the
-eviction rule from the observed table states."""
+eviction rule from the observed table states.  A systematic family (cull_limit c,
+k expired items with k around c, cache past the limit, one write) runs first."""
 import gen
 from props import base, refdict
 
@@ -18,6 +19,35 @@ def evict_history(rng, length):
     h = gen.gen_history(rng, length, 'noblocks', cfg)
     h['ops'] = [op for op in h['ops'] if op['m'] in SCOPE]
     return h
+
+
+def limit_histories():
+    """systematic: a cache filled past its size limit with n file-backed items of which k have
+    expired, then ONE write — for every cull_limit c in {1,2,3}, k in 0..c+1, policy: the write may
+    remove at most c items, expired ones first, then the policy's oldest"""
+    hists = []
+    big = b'V' * 60
+    for policy in ('lrs', 'lru', 'lfu'):
+        for c in (1, 2, 3):
+            for k in range(0, c + 2):
+                for limit_extra in (0, 100):
+                    n = 8
+                    ops = [{'m': 'reset', 'now': 1000, 'key': 'cull_limit', 'value': 0}]
+                    for i in range(n):
+                        ops.append({'m': 'set', 'now': 1000 + i, 'k': 'k%d' % i, 'v': big, 'ttl': (3 if i >= n - k else None), 'tag': None})
+                    # read two of the oldest so that LRU / LFU orders differ from the stored order
+                    ops.append({'m': 'get', 'now': 1020, 'k': 'k0'})
+                    ops.append({'m': 'get', 'now': 1021, 'k': 'k1'})
+                    ops.append({'m': 'get', 'now': 1022, 'k': 'k0'})
+                    ops.append({'m': 'reset', 'now': 1030, 'key': 'cull_limit', 'value': c})
+                    ops.append({'m': 'set', 'now': 1030, 'k': 'new', 'v': big, 'ttl': None, 'tag': None})
+                    ops.append({'m': 'len', 'now': 1030})
+                    ops.append({'m': 'set', 'now': 1031, 'k': 'new2', 'v': big, 'ttl': None, 'tag': None})
+                    ops.append({'m': 'iter', 'now': 1031})
+                    hists.append({'cfg': {'mfs': 8, 'policy': policy, 'cull': 10, 'stats': 0, 'proto': 5, 'disk': 'pickle',
+                                          'limN': 32768 + limit_extra, 'limD': 1, 'tagidx': 0},
+                                  'ops': ops, 'state_every': 1})
+    return hists
 
 
 def parse_rows(state):
@@ -118,7 +148,7 @@ def run(tier, seed, rng, known, replay):
     if replay:
         return base.replay_file(replay, 'C09', ('result', 'state'), acceptor)
     n = 240 if tier == 'quick' else 3000
-    hists = [evict_history(rng, rng.choice([30, 60])) for _ in range(n)]
+    hists = limit_histories() + [evict_history(rng, rng.choice([30, 60])) for _ in range(n)]
     for h in hists:
         h['state_every'] = 1
     r = base.check_histories('C09', hists, ('result', 'state'), acceptor=acceptor, known=known)
